@@ -526,3 +526,64 @@ package adt
 //@ func (*OpContext).repeatCount
 //@   ensures 0 <= result && result <= MaxRepeatCount
 //@   assigns c.errs
+// ---- C04: selecting the default of a disjunction ----
+
+// representation invariant of a finalized disjunction: the marked disjuncts come first
+//@ spec func wfDisj(d *Disjunction) bool { d != nil && 0 <= d.NumDefaults && d.NumDefaults <= len(d.Values) }
+
+// (P) C04: "a unique surviving marked disjunct, else the unique disjunct, else
+// ambiguity is an incomplete error, never a silently chosen value": with no
+// default the value itself is returned, with exactly one default that disjunct,
+// and with several defaults a disjunction of exactly those (which a concreteness
+// check reports as incomplete) — never one of them picked arbitrarily.
+//@ func (*Disjunction).Default
+//@   requires wfDisj(d)
+//@   ensures [none] d.NumDefaults == 0 ==> isType(result, *Disjunction) && result.(*Disjunction) == d
+//@   ensures [unique] d.NumDefaults == 1 ==> result == d.Values[0]
+//@   ensures [ambiguous] d.NumDefaults > 1 ==> isType(result, *Disjunction) && fresh(result.(*Disjunction)) && result.(*Disjunction).NumDefaults == 0 && len(result.(*Disjunction).Values) == d.NumDefaults && (forall k int :: 0 <= k && k < d.NumDefaults ==> result.(*Disjunction).Values[k] == d.Values[k])
+
+//@ func (*nodeContext).getErr
+//@   assumed A-int: the error of a disjunct, if any; reads only
+//@ func (*nodeContext).makeError
+//@   assumed A-int: turns the node into the combined disjunction error
+//@   assigns heap
+//@ func (*nodeContext).setBaseValue
+//@   assumed A-int: installs the final value of the node
+//@   assigns n.node.BaseValue
+//@ func (*OpContext).PathToString
+//@   assumed A-int
+//@ func (*OpContext).markPositions
+//@   assumed A-int
+//@ func (*OpContext).AddPosition
+//@   assumed A-int
+//@ func (*OpContext).releasePositions
+//@   assumed A-int
+//@ func (*Vertex).Path
+//@   assumed A-int
+//@ func (*Vertex).clearArcs
+//@   assumed A-int
+//@   assigns v.Arcs
+
+// (P) C04: the final Disjunction lists the surviving default disjuncts first and
+// counts them in NumDefaults (0 <= NumDefaults <= len(Values)); no slot is left
+// empty. Precondition: all disjuncts have the same layer priority (no layering
+// experiment) and none is nil.
+//@ func (*nodeContext).finalizeDisjunctions
+//@   may_panic
+//@   requires n != nil && n.ctx != nil && n.node != nil
+//@   requires forall k int :: 0 <= k && k < len(n.disjuncts) ==> n.disjuncts[k] != nil && n.disjuncts[k].node != nil && n.disjuncts[k].origPriority == n.disjuncts[0].origPriority && n.disjuncts[k].defaultMode <= notDefault
+//@   loop 0 invariant -1 <= rangeindex && 0 <= numErrs && numErrs <= rangeindex + 1 && n.disjuncts == old(n.disjuncts)
+//@   loop 0 invariant forall k int :: 0 <= k && k < len(n.disjuncts) ==> n.disjuncts[k] == old(n.disjuncts[k]) && n.disjuncts[k].origPriority == old(n.disjuncts[k].origPriority) && n.disjuncts[k].defaultMode == old(n.disjuncts[k].defaultMode) && n.disjuncts[k].node == old(n.disjuncts[k].node)
+//@   loop 1 invariant [A] -1 <= rangeindex
+//@   loop 1 invariant [B] hasDefaults ==> defaultPriority == n.disjuncts[0].origPriority
+//@   loop 1 invariant [C] !hasDefaults ==> defaultPriority == -128
+//@   loop 1 invariant [D] !hasDefaults ==> forall k int :: 0 <= k && k <= rangeindex ==> n.disjuncts[k].defaultMode != isDefault
+//@   loop 1 invariant forall k int :: 0 <= k && k < len(n.disjuncts) ==> n.disjuncts[k] != nil && n.disjuncts[k].node != nil && n.disjuncts[k].origPriority == n.disjuncts[0].origPriority && n.disjuncts[k].defaultMode <= notDefault
+//@   loop 1 invariant rangeindex < len(n.disjuncts) && len(n.disjuncts) > 0
+//@   loop 2 invariant forall k int :: 0 <= k && k < len(n.disjuncts) && n.disjuncts[k].defaultMode == isDefault ==> defaultPriority == n.disjuncts[0].origPriority
+//@   loop 2 invariant rangeindex < len(n.disjuncts) && len(n.disjuncts) > 0
+//@   loop 2 invariant -1 <= rangeindex && 0 <= p && p <= rangeindex + 1 && len(a) == len(n.disjuncts)
+//@   loop 2 invariant forall k int :: 0 <= k && k <= rangeindex ==> a[k] != nil
+//@   loop 2 invariant forall k int :: 0 <= k && k < len(n.disjuncts) ==> n.disjuncts[k] != nil && n.disjuncts[k].node != nil && n.disjuncts[k].origPriority == n.disjuncts[0].origPriority && n.disjuncts[k].defaultMode <= notDefault
+//@   effect (*adt.nodeContext).setBaseValue#0 requires isType(arg1, *Disjunction) && wfDisj(arg1.(*Disjunction)) && forall k int :: 0 <= k && k < len(arg1.(*Disjunction).Values) ==> arg1.(*Disjunction).Values[k] != nil
+//@   assigns heap
